@@ -228,7 +228,7 @@ fn judge_one(
             acc.ok += 1;
             if c.must_err {
                 acc.violations.push((
-                    "a valid program with one injected stray closing token was accepted".into(),
+                    if c.family == "e_stray_closer" { "a valid program with one injected stray closing token was accepted".to_string() } else { "a program beyond a size limit of the encoding was accepted".to_string() },
                     json!({"family": c.family, "source": c.src, "observed": "Ok"}),
                 ));
             }
@@ -500,7 +500,12 @@ pub fn run(ctx: &Ctx) -> Report {
         }
         out.into_iter()
     });
-    let all = fam_a.chain(fam_b).chain(fam_e).chain(fam_d).chain(fam_f).chain(fam_g).chain(fam_c);
+    // (h) programs on, just under and beyond every size limit of the encoding (C04's limit family: each jump
+    // kind at distances 65534..65537, 70000 and around 131072; locals, captures, parameters, elements,
+    // interpolation parts, constants one below / at / above their limits; operand values 0..255 at the end of
+    // a function): compiling terminates without a panic, those beyond a limit are rejected
+    let fam_h = crate::c04::limit_sources(ctx).into_iter().map(|(src, must_err)| Case { family: "h_size_limits", src, must_err });
+    let all = fam_a.chain(fam_b).chain(fam_e).chain(fam_d).chain(fam_h).chain(fam_f).chain(fam_g).chain(fam_c);
     // batches of 400 inputs
     struct Batcher<I: Iterator<Item = Case>> {
         it: I,
@@ -549,7 +554,7 @@ pub fn run(ctx: &Ctx) -> Report {
     report.cov("states", json!(acc.distinct.len()));
     report.cov("transitions", json!(acc.evaluations));
     report.cov("traces_validated_against_impl", json!(acc.evaluations));
-    report.cov("rule", json!("inputs enumerated exhaustively per family (every prefix at every char boundary of every repository script and core.yl; token-level delete/duplicate/swap[/replace-by-each-token-kind] mutants at every token position; every token sequence up to the stated length over the full token vocabulary; nesting ladders and limit-sized programs; valid programs with one stray closer at every token position; character-level mutants: every single-character deletion and insertions of ten lexically significant characters; five recovery templates - every statement form nested, with control flow after the places a mutant breaks - under deletion, duplication, swap, and replacement by / insertion of each of the 71 token kinds at every token position). distinct = distinct source text; non-trivial = at least two tokens by the reference lexer."));
+    report.cov("rule", json!("inputs enumerated exhaustively per family (every prefix at every char boundary of every repository script and core.yl; token-level delete/duplicate/swap[/replace-by-each-token-kind] mutants at every token position; every token sequence up to the stated length over the full token vocabulary; nesting ladders and limit-sized programs; the programs of C04's limit family (every jump kind sized to 65534..65537, 70000 and 131071..131073 bytes, every count limit straddled, every operand value at the end of a function); valid programs with one stray closer at every token position; character-level mutants: every single-character deletion and insertions of ten lexically significant characters; five recovery templates - every statement form nested, with control flow after the places a mutant breaks - under deletion, duplication, swap, and replacement by / insertion of each of the 71 token kinds at every token position). distinct = distinct source text; non-trivial = at least two tokens by the reference lexer."));
     report.cov("exhaustive", json!(acc.skipped_after_hangs == 0));
     report.cov("bounds", json!({"token_sequence_length": seq_len, "vocabulary": nv, "replacement_mutants": thorough, "ladder_depth_max": 256}));
     report.cov("by_family", json!(acc.by_family));
